@@ -411,10 +411,10 @@ func TestVerif_C16_Swap(t *testing.T) {
 // ---------- part: empty table / missing options ----------
 
 type emptySc struct {
-	Op       string `json:"op"`
-	NoBoot   bool   `json:"no_bootstrap_option"`
-	NoCrawl  bool   `json:"no_crawler_option"`
-	NKeys    int    `json:"n_keys"`
+	Op      string `json:"op"`
+	NoBoot  bool   `json:"no_bootstrap_option"`
+	NoCrawl bool   `json:"no_crawler_option"`
+	NKeys   int    `json:"n_keys"`
 }
 
 func TestVerif_C16_Empty(t *testing.T) {
@@ -528,5 +528,5 @@ func TestVerif_C16_Empty(t *testing.T) {
 
 type c16Validator struct{}
 
-func (c16Validator) Validate(key string, value []byte) error      { return nil }
+func (c16Validator) Validate(key string, value []byte) error       { return nil }
 func (c16Validator) Select(key string, vals [][]byte) (int, error) { return 0, nil }
